@@ -617,6 +617,8 @@ func (t *State) RollBackUnconfirmedTx() (map[string]bool, []*pb.Transaction, err
 		undoErr := t.undoUnconfirmedTx(unconfirmTx, unconfirmTxMap, unconfirmTxGraph,
 			batch, undoDone, &undoList)
 		if undoErr != nil {
+			// batch没有落盘, 但已回滚的交易已经直接改动了utxo/余额/xmodel cache, 清空保持和磁盘一致
+			t.ClearCache()
 			t.log.Warn("fail to undo tx", "undoErr", undoErr, "txid", fmt.Sprintf("%x", txid))
 			return nil, nil, undoErr
 		}
